@@ -10,8 +10,13 @@ Tie (translator + fault-injection correspondence):
   is open: PyTables registry, /proc/self/fd, the text file object; canonical dump of the document unchanged; the same
   call succeeds afterwards).  The same (calls, fault point) is given to Drivers/C08.lean, which runs the Lean fault
   semantics on the extracted skeleton; (raised, handle left open, document modified, calls made) must agree.
-* truncation: documents are written, cut at every byte (every 97th for large files) and loaded; the loader must raise;
-  lxml's verdict is compared with the Lean `Complete` predicate on the file's token stream.
+* truncation: documents are written, cut (thorough: at EVERY byte offset; quick: a stratified sample) and loaded; the
+  loader must raise exactly when at least the last byte of the root's end tag is lost; the file's token stream (with
+  its white space) must be the Lean serialisation `tokens tree ++ trail n`, and lxml's verdict is compared in both
+  directions with the Lean `TruncWs.Complete` predicate on every cut.
+* second pass: 13 entry points / specialisations (caller-owned file object, embed_xml=False, optimized containers,
+  module-level readers, include resolution); after every failed call the same document object is retried on the same
+  path and must leave what a first call leaves; component identity is compared besides the value dump.
 """
 import builtins
 import json
@@ -43,7 +48,15 @@ RULE = ("generated cases x every fault point.  Cases: XML documents (cells, poin
         "offset); a fault evaluation is non-trivial when the fault point lies after the open call (there is "
         "something to leak), a cut when it lies strictly inside the document; distinct = distinct (entry point, "
         "skeleton site of the faulted call, exception class, position 1/2/3/later) resp. (document, offset).  "
-        "Truncation: every byte offset of files <= 4000 bytes, every 97th of larger ones.")
+        "Truncation: thorough = EVERY byte offset 0..len of every written file (15 files incl. one of ~10 kB); quick = a "
+        "stratified sample per file (token boundaries, first/middle/last byte of start tags, end tags, empty "
+        "elements, character data, white space, attribute values, the first 20 and last 60 bytes).  "
+        "Second-pass cases: caller-owned file object with close=False, embed_xml=False / compress=False, documents of "
+        "optimized containers, NeuroMLLoader / read_neuroml2_file / read_neuroml2_string on XML and HDF5 (intact, "
+        "truncated, other root element, empty, missing, damaged), include resolution with an XML and an HDF5 include; "
+        "after every failed call the SAME document object is retried on the same path and must leave what a first "
+        "call leaves (bytes for XML, structural digest for HDF5, value dump for readers); component identity is "
+        "compared besides the value dump.")
 TRUST = [
     "the skeleton translator (translators/skeleton_extract.py) is validated, not verified: every real file-layer call "
     "of every run must be labelled with a site of the extracted skeleton and the model run on it must reproduce the "
@@ -51,11 +64,17 @@ TRUST = [
     "un-expanded code (generateDS export, recursive parse_group, other entry points) is assumed handle-neutral and "
     "document-neutral in the model; the oracle observes handles and the document on the real code at every fault point",
     "a failing close releases the handle (the injection performs the real close first)",
-    "lxml rejects input whose token stream is not Complete (sampled at every cut offset that is tried)",
+    "lxml accepts exactly the token streams that are `TruncWs.Complete` (compared in both directions at every cut offset "
+    "that is tried: every offset in the thorough tier); the byte -> token mapping (which token a byte offset falls "
+    "in, and whether what is left of it is markup, character data or white space) is the harness's tokeniser",
+    "recursion of parse_group is unrolled three levels (the depth of the layout the writer produces); a deeper group "
+    "is un-expanded code (exercised by the deep_group case)",
 ]
 ASSUMPTIONS = [
-    "entry points are analysed and driven with their default keyword arguments and a path (not a caller-owned file "
-    "object) as target",
+    "entry points are analysed and driven at these argument specialisations: defaults; NeuroMLWriter.write with a "
+    "caller-owned file object and close=False; NeuroMLHdf5Writer.write with embed_xml=False, compress=False, and "
+    "on documents of optimized containers; NeuroMLHdf5Loader.load with optimized=True; read_neuroml2_file with "
+    "include_includes=True; other combinations are not analysed",
     "AttributeError-class faults are injected into write-side calls only (inside a read, Python itself turns an "
     "AttributeError from __getattr__ into 'attribute absent')",
     "OS-level descriptors are observed through /proc/self/fd while the harness keeps the file objects alive; garbage "
@@ -212,9 +231,11 @@ class Rec:
             return 0
         chain = chain[:top + 1][::-1]
         i = 0
+        active = []          # functions being expanded, as in the translator's `stack` (recursion is unrolled UNROLL deep)
         while True:
             fr = chain[i]
             key = "%s::%s" % (self.rel(fr.f_code.co_filename), fr.f_code.co_qualname)
+            active.append(key)
             site = self.site_at(key, fr.f_lineno)
             if site == 0:
                 self.unlabelled.append("%s:%d" % (key, fr.f_lineno))
@@ -222,7 +243,8 @@ class Rec:
             if i + 1 < len(chain):
                 nx = chain[i + 1]
                 nk = [self.rel(nx.f_code.co_filename), nx.f_code.co_qualname]
-                if nk in self.sk["sites"][site]["inline"]:
+                nkey = "%s::%s" % tuple(nk)
+                if nk in self.sk["sites"][site]["inline"] and active.count(nkey) < self.sk["unroll"].get(nkey, 1):
                     i += 1
                     continue
             return site
@@ -719,18 +741,20 @@ def gen_am_spec(rng):
     return spec
 
 
-DAMAGE = [None, None, None, "no_root", "bad_xml", "bad_shape", "no_id_attr", "not_hdf5", "extra_group"]
+DAMAGE = [None, None, None, "no_root", "bad_xml", "bad_shape", "no_id_attr", "not_hdf5", "extra_group", "noembed",
+          "no_columns", "bytes_attrs", "deep_group"]
 
 
 # ============================================================================ one library call under instrumentation
 def handles_open(path):
+    """PyTables registry entries and OS descriptors on any file of the case's directory (the target, included files)"""
     import tables
-    path = os.path.abspath(path)
-    reg = [h.filename for h in list(tables.file._open_files.handlers) if os.path.abspath(h.filename) == path]
+    root = os.path.dirname(os.path.abspath(path)) + os.sep
+    reg = [h.filename for h in list(tables.file._open_files.handlers) if os.path.abspath(h.filename).startswith(root)]
     fds = []
     for fd in os.listdir("/proc/self/fd"):
         try:
-            if os.readlink("/proc/self/fd/" + fd) == path:
+            if os.readlink("/proc/self/fd/" + fd).startswith(root):
                 fds.append(fd)
         except OSError:
             pass
@@ -739,8 +763,9 @@ def handles_open(path):
 
 def release(path, rec):
     import tables
+    root = os.path.dirname(os.path.abspath(path)) + os.sep
     for h in list(tables.file._open_files.handlers):
-        if os.path.abspath(h.filename) == os.path.abspath(path):
+        if os.path.abspath(h.filename).startswith(root):
             try:
                 h.close()
             except Exception:
@@ -752,13 +777,31 @@ def release(path, rec):
             pass
 
 
-def the_call(kind, obj, path):
+WRITERS = ("xw", "hw", "aw", "xwo", "hwn", "hwo")
+
+
+def the_call(kind, obj, path, opts=None, fileobj=None):
     import neuroml.writers as W
     import neuroml.loaders as L
+    opts = opts or {}
     if kind == "xw":
         return W.NeuroMLWriter.write(obj, path)
-    if kind == "hw":
+    if kind == "xwo":       # caller-owned file object, not to be closed by the library
+        return W.NeuroMLWriter.write(obj, fileobj, close=False)
+    if kind in ("hw", "hwo"):
+        if "compress" in opts:
+            return W.NeuroMLHdf5Writer.write(obj, path, compress=opts["compress"])
         return W.NeuroMLHdf5Writer.write(obj, path)
+    if kind == "hwn":
+        return W.NeuroMLHdf5Writer.write(obj, path, embed_xml=False, compress=opts.get("compress", True))
+    if kind == "xr":
+        return L.NeuroMLLoader.load(path)
+    if kind == "rf":
+        return L.read_neuroml2_file(path)
+    if kind == "rfi":
+        return L.read_neuroml2_file(path, include_includes=True)
+    if kind == "rs":
+        return L.read_neuroml2_string(obj)
     if kind == "aw":
         return W.ArrayMorphWriter.write(obj, path)
     if kind == "hr":
@@ -770,16 +813,43 @@ def the_call(kind, obj, path):
     raise ValueError(kind)
 
 
-KIND_ENTRY = {"xw": 1, "hw": 2, "aw": 3, "hr": 4, "hro": 5, "ar": 6}
+KIND_ENTRY = {"xw": 1, "hw": 2, "aw": 3, "hr": 4, "hro": 5, "ar": 6, "xr": 7, "xwo": 8, "hwn": 9, "hwo": 10, "rf": 11,
+              "rfi": 12, "rs": 13}
 
 
-def natural_site(rec, exc):
-    """site (in the skeleton) of the frame where the library raised by itself"""
+def tb_frames(exc):
     tb = exc.__traceback__
     frames = []
     while tb is not None:
         frames.append((tb.tb_frame, tb.tb_lineno))
         tb = tb.tb_next
+    return frames
+
+
+def root_cause(exc):
+    """(frames from the outermost caller down to where the FIRST exception was raised, that exception): an exception
+    raised inside an `except` handler (`raise Exception(..., e)`) is traced back to what the handler caught"""
+    frames = tb_frames(exc)
+    while True:
+        inner = exc.__cause__ or exc.__context__
+        if inner is None or inner is exc:
+            return frames, exc
+        cf = tb_frames(inner)
+        idx = None
+        if cf:
+            for i, (f, _) in enumerate(frames):
+                if f is cf[0][0]:
+                    idx = i
+                    break
+        if idx is None:
+            return frames, exc
+        frames = frames[:idx] + cf
+        exc = inner
+
+
+def natural_site(rec, exc):
+    """site (in the skeleton) of the frame where the library raised by itself"""
+    frames, _ = root_cause(exc)
     # emulate Rec.label on the traceback chain (outer -> inner)
     start = None
     for i, (f, ln) in enumerate(frames):
@@ -789,49 +859,115 @@ def natural_site(rec, exc):
     if start is None:
         return 0
     i = start
+    active = []
     while True:
         # `raise e` in a handler adds a second entry for the same frame: the deeper one is where it came from
         while i + 1 < len(frames) and frames[i + 1][0] is frames[i][0]:
             i += 1
         f, ln = frames[i]
         key = "%s::%s" % (rec.rel(f.f_code.co_filename), f.f_code.co_qualname)
+        active.append(key)
         site = rec.site_at(key, ln)
         if site == 0:
             return 0
         if i + 1 < len(frames):
             nx = frames[i + 1][0]
-            if [rec.rel(nx.f_code.co_filename), nx.f_code.co_qualname] in rec.sk["sites"][site]["inline"]:
+            nk = [rec.rel(nx.f_code.co_filename), nx.f_code.co_qualname]
+            nkey = "%s::%s" % tuple(nk)
+            if nk in rec.sk["sites"][site]["inline"] and active.count(nkey) < rec.sk["unroll"].get(nkey, 1):
                 i += 1
                 continue
         return site
 
 
-def observe(kind, obj, path, fault_at=None, fault_kind=1):
+def identity_map(o, path="doc", acc=None, seen=None):
+    """structural path -> the generateDS object / member list found there (held by reference)"""
+    if acc is None:
+        acc, seen = {}, set()
+    if isinstance(o, list):
+        acc[path + "[]"] = o
+        for i, x in enumerate(o):
+            identity_map(x, "%s[%d]" % (path, i), acc, seen)
+        return acc
+    d = getattr(o, "__dict__", None)
+    if d is None or id(o) in seen or isinstance(o, type) or not (type(o).__module__ or "").startswith("neuroml"):
+        return acc
+    seen.add(id(o))
+    acc[path] = o
+    for k, v in sorted(d.items()):
+        if k not in SKIP_KEYS and (isinstance(v, list) or hasattr(v, "__dict__")):
+            identity_map(v, path + "." + k, acc, seen)
+    return acc
+
+
+def identity_diff(before, after):
+    """(components that are no longer the same objects, member lists replaced by other list objects)"""
+    objs, lists = [], []
+    for k, v in before.items():
+        w = after.get(k)
+        if w is not v:
+            (lists if k.endswith("[]") else objs).append(k)
+    return sorted(objs), sorted(lists)
+
+
+def file_digest(kind, path):
+    """what a successful write left on disk, in a form that can be compared between two writes"""
+    if not os.path.exists(path):
+        return None
+    if kind in ("xw", "xwo"):
+        with open(path, "rb") as fh:
+            return fh.read().decode("utf-8", "replace")
+    import tables
+    out = []
+    h = tables.open_file(path, mode="r")
+    try:
+        for node in h.walk_nodes("/"):
+            attrs = {k: dump(node._v_attrs[k]) for k in node._v_attrs._v_attrnamesuser}     # no addresses
+            row = [node._v_pathname, type(node).__name__, attrs]
+            if isinstance(node, tables.Array):
+                row.append(repr(node.read().tolist()))
+            out.append(row)
+    finally:
+        h.close()
+    return out
+
+
+def observe(kind, obj, path, fault_at=None, fault_kind=1, opts=None):
     """run the entry point once; returns the observation dict"""
     eid = KIND_ENTRY[kind]
-    is_writer = kind in ("xw", "hw", "aw")
+    is_writer = kind in WRITERS
     before = dump(obj) if is_writer else None
+    idmap = identity_map(obj) if is_writer else None
     rec = Rec(eid, path, fault_at, fault_kind, doc_object_ids(obj) if is_writer else ())
     exc = None
     result = None
+    fileobj = None
+    if kind == "xwo":
+        fileobj = FileProxy(open(path, "w"))
     with Instr(rec):
         try:
-            result = the_call(kind, obj, path)
+            result = the_call(kind, obj, path, opts, fileobj)
         except RecursionError:
             raise
         except SystemExit as e:
             exc = e
         except Exception as e:
             exc = e
+    callers_file_closed = None
+    if fileobj is not None:
+        callers_file_closed = fileobj._real.closed
+        fileobj._real.close()
     reg, fds = handles_open(path)
     proxy_open = [p for p in rec.proxies if not p.lib_closed]
     after = dump(obj) if is_writer else None
+    moved, relisted = identity_diff(idmap, identity_map(obj)) if is_writer else ([], [])
     obs = {"calls": [list(c) for c in rec.calls], "nfile": rec.nfile, "delivered": rec.delivered,
            "raised": None if exc is None else type(exc).__name__,
            "leak": bool(reg or fds or proxy_open), "leak_detail": {"registry": reg, "fds": len(fds),
                                                                    "text_unclosed": len(proxy_open)},
            "doc_changed": bool(is_writer and before != after),
            "changed_fields": sorted(diff_fields(before, after)) if is_writer and before != after else [],
+           "moved": moved[:5], "relisted": relisted[:5], "callers_file_closed": callers_file_closed,
            "unlabelled": rec.unlabelled[:3]}
     if exc is not None and not rec.delivered:
         # the input itself made the library fail
@@ -845,7 +981,7 @@ def observe(kind, obj, path, fault_at=None, fault_kind=1):
                         break
             obs["natural"] = {"in_call": j, "kind": exc_kind(exc), "before": cutat}
         else:
-            obs["natural"] = {"site": natural_site(rec, exc), "kind": exc_kind(exc),
+            obs["natural"] = {"site": natural_site(rec, exc), "kind": exc_kind(root_cause(exc)[1]),
                               "before": len(rec.calls) if rec.first_cleanup is None else rec.first_cleanup}
         obs["raised_msg"] = str(exc)[:120]
     release(path, rec)
@@ -860,16 +996,85 @@ def make_input(case, root):
     kind = case["kind"]
     if kind == "xw":
         return kind, build_doc(case["spec"]), os.path.join(root, "out.nml")
-    if kind == "hw":
+    if kind == "xwo":
+        return kind, build_doc(case["spec"]), os.path.join(root, "out_fileobj.nml")
+    if kind in ("hw", "hwn"):
         return kind, build_doc(case["spec"]), os.path.join(root, "out.nml.h5")
+    if kind == "hwo":
+        # a document made of the optimized containers: what NeuroMLHdf5Loader.load(.., optimized=True) returns
+        import neuroml.writers as W
+        import neuroml.loaders as L
+        src = os.path.join(root, "src_opt.nml.h5")
+        W.NeuroMLHdf5Writer.write(build_doc(case["spec"]), src)
+        doc = L.NeuroMLHdf5Loader.load(src, optimized=True)
+        os.remove(src)
+        bad = case["spec"].get("bad_opt")
+        if bad == "none_id_pop":
+            doc.networks[0].populations[-1].id = None            # TypeError in PopulationContainer.exportHdf5
+        elif bad == "nonsense_member":
+            doc.izhikevich_cells.append("this is not a component")   # the embedded-XML step fails
+        return kind, doc, os.path.join(root, "out.nml.h5")
+    if kind in ("xr", "rf", "rs") and case.get("form", "xml") == "xml":
+        import neuroml.writers as W
+        p = os.path.join(root, "in.nml")
+        W.NeuroMLWriter.write(build_doc(case["spec"]), p)
+        data = open(p, "rb").read()
+        dmg = case.get("damage")
+        if dmg == "truncated":
+            data = data[:max(1, int(len(data.rstrip()) * case.get("at", 0.5)))]
+        elif dmg == "empty":
+            data = b""
+        elif dmg == "other_root":
+            data = b'<cell xmlns="http://www.neuroml.org/schema/neuroml2" id="lonely"/>\n'
+        elif dmg == "missing":
+            os.remove(p)
+            data = None
+        if data is not None:
+            with open(p, "wb") as fh:
+                fh.write(data)
+        if kind == "rs":
+            return kind, (data or b"<neuroml").decode("utf-8"), p
+        return kind, None, p
+    if kind == "rf":
+        c2 = dict(case, kind="hr")
+        return kind, None, make_input(c2, root)[2]
+    if kind == "rfi":
+        # main.nml includes an XML file and an HDF5 file lying next to it
+        import neuroml as n
+        import neuroml.writers as W
+        spec = case["spec"]
+        inc = os.path.join(root, "inc.nml")
+        W.NeuroMLWriter.write(build_doc({"id": "inc", "izh": ["izh_inc"], "pulses": ["pg_inc"]}), inc)
+        h5 = make_input({"kind": "hr", "spec": spec, "damage": case.get("damage") if case.get("damage") in
+                         ("no_root", "bad_xml", "not_hdf5") else None}, root)[2]
+        os.rename(h5, os.path.join(root, "net.nml.h5"))
+        main = n.NeuroMLDocument(id="main")
+        main.includes.append(n.IncludeType(href="inc.nml"))
+        main.includes.append(n.IncludeType(href="net.nml.h5"))
+        main.izhikevich_cells.append(n.IzhikevichCell(id="izh_main", v0="-70mV", thresh="30mV", a="0.02", b="0.2",
+                                                      c="-65", d="6"))
+        p = os.path.join(root, "main.nml")
+        W.NeuroMLWriter.write(main, p)
+        dmg = case.get("damage")
+        if dmg == "inc_missing":
+            os.remove(inc)
+        elif dmg == "inc_truncated":
+            data = open(inc, "rb").read()
+            with open(inc, "wb") as fh:
+                fh.write(data[:len(data) // 2])
+        return kind, None, p
     if kind == "aw":
         return kind, build_arraymorph(case["spec"]), os.path.join(root, "out.am.h5")
     if kind in ("hr", "hro"):
         import neuroml.writers as W
         import tables
         p = os.path.join(root, "in.nml.h5")
-        W.NeuroMLHdf5Writer.write(build_doc(case["spec"]), p)
         dmg = case.get("damage")
+        if dmg == "noembed":        # a file without the embedded top-level XML (component objects unknown to the parser)
+            W.NeuroMLHdf5Writer.write(build_doc(case["spec"]), p, embed_xml=False)
+            dmg = None
+        else:
+            W.NeuroMLHdf5Writer.write(build_doc(case["spec"]), p)
         if dmg == "not_hdf5":
             with open(p, "wb") as fh:
                 fh.write(b"this is not an HDF5 file\n" * 4)
@@ -884,6 +1089,21 @@ def make_input(case, root):
                     h.root.neuroml._f_delattr("id")
                 elif dmg == "extra_group":
                     h.create_group("/neuroml", "stray_group")
+                elif dmg in ("no_columns", "bytes_attrs"):
+                    # files of older writers: no column_<i> attributes (the parser falls back on the row width), or
+                    # attribute values stored as bytes
+                    import numpy as np
+                    for node in h.walk_nodes("/neuroml", classname="Array"):
+                        for k in list(node.attrs._v_attrnamesuser):
+                            if k.startswith("column_"):
+                                v = node.attrs[k]
+                                node._f_delattr(k)
+                                if dmg == "bytes_attrs":
+                                    node._f_setattr(k, np.bytes_(str(v).encode()))
+                elif dmg == "deep_group":
+                    g = h.create_group("/neuroml/network/population_p0", "level4")
+                    g = h.create_group(g, "level5")
+                    g._f_setattr("id", "deep")
                 elif dmg == "bad_shape":
                     for node in h.walk_nodes("/neuroml", classname="Array"):
                         name, parent = node._v_name, node._v_parent
@@ -928,39 +1148,58 @@ def run_case(ctx, case, cap=60):
     rec = {"case": case, "faults": []}
     try:
         kind, obj, path = make_input(case, root)
+        opts = case.get("opts")
         name = ENTRY_NAMES[KIND_ENTRY[kind]]
-        clean, _ = observe(kind, obj, path)
+        clean, res = observe(kind, obj, path, opts=opts)
         rec["clean"] = clean
         rec["entry"] = KIND_ENTRY[kind]
         case["_clean_ok"] = clean["raised"] is None
+        if clean["raised"] is None:
+            # what a successful call leaves behind: the retried call after every injected failure must leave the same
+            case["_clean_digest"] = file_digest(kind, path) if kind in WRITERS else dump(res)
+        res = None
         ctx.count("case:" + kind)
         ctx.count("clean:" + ("ok" if clean["raised"] is None else "raises:" + clean["raised"]))
         check_oracle(ctx, case, name, kind, obj, path, clean, None)
-        if clean["raised"] is not None and kind in ("xw", "hw", "aw") and not clean["doc_changed"]:
-            # the same call succeeds once the cause is removed from the document
-            obj_c = make_input(case, root)[1]
-            if cure(case, obj_c):
-                o2, _ = observe(kind, obj_c, path)
+        if clean["raised"] is not None and kind in WRITERS and not clean["doc_changed"]:
+            # the same call succeeds once the cause is removed: from the SAME document object, onto the same path
+            # (whatever the failed call left there), and leaves what a first call with a fresh document leaves
+            if cure(case, obj):
+                o2, _ = observe(kind, obj, path, opts=opts)
                 ctx.count("cured-retry")
                 if o2["raised"] is not None:
                     ctx.fail("C08:%s:retry-failed" % name, "%s still fails after the cause was removed" % name,
                              {"case": case, "retry": o2["raised"], "msg": o2.get("raised_msg")})
+                else:
+                    d_retry = file_digest(kind, path)
+                    fresh_root = tempfile.mkdtemp(prefix="verif_c08f_")
+                    try:
+                        k2, obj_f, path_f = make_input(case, fresh_root)
+                        cure(case, obj_f)
+                        o3, _ = observe(kind, obj_f, path_f, opts=opts)
+                        if o3["raised"] is None and file_digest(kind, path_f) != d_retry:
+                            ctx.fail("C08:%s:retry-differs" % name,
+                                     "the call retried after a failure does not leave what a first call leaves",
+                                     {"case": case})
+                    finally:
+                        shutil.rmtree(fresh_root, ignore_errors=True)
         n = clean["nfile"]
         nat = clean.get("natural")
         if nat is not None:
             # the input itself makes the call fail: inject only before that point (one failure per run)
             n = len([c for c in clean["calls"][:nat["before"]] if c[1] != 8]) - (1 if "in_call" in nat else 0)
         pts = case.get("faults") or fault_points(ctx.rng, n, cap)
-        kinds = [1, 2] if kind in ("xw", "hw", "aw") else [1]
+        kinds = [1, 2] if kind in WRITERS else [1]
         for k in pts:
             if k > n:
                 continue
             for fk in kinds:
                 if fk == 2 and k % 3 != 1 and len(pts) > 12:
                     continue          # AttributeError-class faults: a third of the points of long runs
-                if kind in ("xw", "hw", "aw"):
-                    obj = make_input(case, root)[1]      # a fresh document for every run
-                o, _ = observe(kind, obj, path, fault_at=k, fault_kind=fk)
+                if kind in WRITERS:
+                    obj = make_input(case, root)[1]      # a fresh document for every run (the path keeps what the
+                    #                                      previous failed/retried call left on it)
+                o, _ = observe(kind, obj, path, fault_at=k, fault_kind=fk, opts=opts)
                 o["k"], o["fk"] = k, fk
                 rec["faults"].append(o)
                 site = o["calls"][-1][0] if o["calls"] else 0
@@ -1023,7 +1262,22 @@ def cure(case, obj):
                 if pp.id is None:
                     pp.id = "cured_p%d" % i
                     done = True
-    if case["kind"] == "hw":
+    if spec.get("bad_opt") == "none_id_pop":
+        for net in obj.networks:
+            for i, pp in enumerate(net.populations):
+                if pp.id is None:
+                    pp.id = "cured_p%d" % i
+                    done = True
+    elif spec.get("bad_opt") == "nonsense_member":
+        obj.izhikevich_cells.pop()
+        done = True
+    if case["kind"] == "hwo":
+        for net in obj.networks:          # a projection container without connections cannot be written
+            keep = [e for e in net.projections if len(e.connections) > 0]
+            if len(keep) != len(net.projections):
+                net.projections = keep
+                done = True
+    if case["kind"] in ("hw", "hwn", "hwo"):
         if len(obj.networks) > 1:       # a second network cannot be written (group "network" exists already)
             del obj.networks[1:]
             done = True
@@ -1052,7 +1306,7 @@ def cure(case, obj):
 def check_oracle(ctx, case, name, kind, obj, path, o, fault):
     """the full property on the real code, after one call"""
     failed = o["raised"] is not None
-    where = {"case": case, "fault": fault, "observed": {k: o[k] for k in ("raised", "leak", "leak_detail",
+    where = {"case": {k: v for k, v in case.items() if not k.startswith("_")}, "fault": fault, "observed": {k: o[k] for k in ("raised", "leak", "leak_detail",
                                                                            "doc_changed", "changed_fields")}}
     if fault is not None and o["delivered"] and not failed:
         ctx.fail("C08:%s:swallowed" % name, "an error raised by the file layer did not make %s raise" % name, where)
@@ -1065,19 +1319,34 @@ def check_oracle(ctx, case, name, kind, obj, path, o, fault):
     if o["doc_changed"]:
         ctx.fail("C08:%s:doc-changed:%s" % (name, "+".join(o["changed_fields"][:3])),
                  "%s left the in-memory document modified after a failed call" % name, where)
-    # retry: the same call without the fault (and, for a cause in the input, with the cause removed)
-    if fault is not None and kind in ("xw", "hw", "aw", "hr", "hro", "ar"):
+    elif o.get("moved"):
+        # equal by value but no longer the same components: a component the caller still holds is not the one in
+        # the document any more (changing it is not seen by the document)
+        ctx.fail("C08:%s:doc-changed:identity" % name,
+                 "%s left the document holding other (equal) component objects after a failed call" % name,
+                 dict(where, moved=o["moved"]))
+    if o.get("relisted"):
+        ctx.count("member-list-replaced-by-equal-list")     # harmless by itself (observed, not a failure)
+    # retry: the same call, same document object, same path (with whatever the failed call left on it), no fault
+    if fault is not None:
         clean_ok = case.get("_clean_ok")
         if clean_ok is None:
             return
         if clean_ok:
-            o2, _ = observe(kind, obj, path)
+            o2, res = observe(kind, obj, path, opts=case.get("opts"))
+            ctx.count("retry-after-fault")
             if o2["raised"] is not None:
                 ctx.fail("C08:%s:retry-failed" % name,
                          "%s does not succeed when called again after a failed call" % name,
                          dict(where, retry=o2["raised"]))
             elif o2["leak"]:
                 ctx.fail("C08:%s:leak-on-success" % name, "%s returned normally with a handle still open" % name, where)
+            elif "_clean_digest" in case:
+                got = file_digest(kind, path) if kind in WRITERS else dump(res)
+                if got != case["_clean_digest"]:
+                    ctx.fail("C08:%s:retry-differs" % name,
+                             "the call retried after a failed call does not produce what a first call produces",
+                             where)
 
 
 # ============================================================================ model side
@@ -1164,7 +1433,14 @@ def run_records(ctx, cases, cap=60):
             records.append(r)
     lines = model_lines(records)
     send = [json.dumps(j) for j in lines]
+    import time
+    t0 = time.time()
     rc, out = fw.run_driver("C08", send) if send else (0, [])
+    ctx.extra["driver_s"] = round(ctx.extra.get("driver_s", 0) + time.time() - t0, 1)
+    ctx.extra["driver_lines"] = ctx.extra.get("driver_lines", 0) + len(send)
+    if os.environ.get("C08_DUMP_LINES"):
+        with open(os.environ["C08_DUMP_LINES"], "a") as fh:
+            fh.write("\n".join(send) + "\n")
     if rc != 0 or len(out) != len(send):
         ctx.disagree("driver", "driver failed rc=%s" % rc, "\n".join(out[-5:]), None)
         return records
@@ -1199,7 +1475,62 @@ def tokenise(text):
     return toks
 
 
-def trunc_case(ctx, spec, lines, pending):
+def build_tree(toks):
+    """token stream -> (tree in the driver's encoding, number of white-space tokens after the root) or None"""
+    stack, names = [[]], []
+    for (kind, tid, _cs, _ce) in toks:
+        if kind == 0:
+            stack.append([])
+            names.append(tid)
+            continue
+        if kind == 1:
+            if not names or names[-1] != tid:
+                return None
+            kids = stack.pop()
+            names.pop()
+            node = [0, tid, kids]
+        elif kind == 2:
+            node = [1, tid]
+        elif kind == 3:
+            node = [2]
+        else:
+            node = [3]
+        stack[-1].append(node)
+    top = stack[0]
+    if names or not top or top[0][0] not in (0, 1) or any(x != [3] for x in top[1:]):
+        return None
+    return top[0], len(top) - 1
+
+
+def cut_offsets(ctx, data, toks, boff, every):
+    """byte offsets to cut at.  thorough: EVERY offset (files up to 30000 bytes; beyond that every offset of the first and
+    last 3000 bytes and every 7th in between).  quick: a stratified sample -- for every kind of token (start tag, end
+    tag, empty element, character data, white space) a few tokens, each cut at its first byte (= token boundary),
+    after its first byte, in the middle, before its last byte; inside attribute values; every offset of the first
+    20 and the last 60 bytes (the root's end tag and the trailing line feed)."""
+    n = len(data)
+    if every:
+        if n <= 30000:
+            return list(range(0, n + 1))
+        return sorted(set(range(0, 3000)) | set(range(n - 3000, n + 1)) | set(range(0, n, 7)))
+    pts = set(range(0, min(20, n + 1))) | set(range(max(0, n - 60), n + 1))
+    bykind = {}
+    for t in toks:
+        bykind.setdefault(t[0], []).append(t)
+    for kind, ts in sorted(bykind.items()):
+        pick = ts if len(ts) <= 6 else [ts[0], ts[-1]] + ctx.rng.sample(ts[1:-1], 4)
+        for (_k, _tid, cs, ce) in pick:
+            b0, b1 = boff[cs], boff[ce]
+            pts |= {b0, b0 + 1, (b0 + b1) // 2, b1 - 1}
+            if kind in (3, 4):          # character data / white space: every offset of the (short) token
+                pts |= set(range(b0, min(b1, b0 + 40)))
+    quotes = [i for i, ch in enumerate(data) if ch in (34, 39)]
+    for q in (quotes if len(quotes) <= 8 else ctx.rng.sample(quotes, 8)):
+        pts |= {q, q + 1, q + 2}
+    return sorted(p for p in pts if 0 <= p <= n)
+
+
+def trunc_case(ctx, spec, lines, pending, every=False):
     import neuroml.writers as W
     import neuroml.loaders as L
     root = tempfile.mkdtemp(prefix="verif_c08t_")
@@ -1216,12 +1547,16 @@ def trunc_case(ctx, spec, lines, pending):
         ref = dump(full)
         text = data.decode("utf-8")
         toks = tokenise(text)
+        if toks is None:
+            ctx.disagree("xml-token-form", {"spec": spec}, "file is not a sequence of <tag ...>, </tag>, <tag/>, text",
+                         None)
+            return
+        boff = [0]
+        for ch in text:
+            boff.append(boff[-1] + len(ch.encode("utf-8")))
         # byte offset of the end of the root element
         end_root = len(data.rstrip())
-        step = 1 if len(data) <= 4000 else 97
-        offsets = list(range(0, len(data), step))
-        if ctx.tier != "thorough" and len(offsets) > 700:
-            offsets = offsets[::len(offsets) // 700 + 1]
+        offsets = cut_offsets(ctx, data, toks, boff, every)
         cut = os.path.join(root, "cut.nml")
         verdict = {}
         for k in offsets:
@@ -1241,39 +1576,44 @@ def trunc_case(ctx, spec, lines, pending):
                     ctx.fail("C08:truncation:%s" % ("loaded-smaller" if not same else "loaded-strict-prefix"),
                              "a truncated XML file was loaded instead of rejected",
                              {"spec": spec, "offset": k, "length": len(data), "same_document": same})
+            elif k >= end_root:
+                # only white space after the root's end tag is lost: this IS the complete document
+                ctx.fail("C08:truncation:complete-document-rejected",
+                         "a file that lacks only trailing white space was rejected by the loader",
+                         {"spec": spec, "offset": k, "length": len(data)})
             reg, fds = handles_open(cut)
             if fds:
                 ctx.fail("C08:NeuroMLLoader.load:leak", "the XML loader left a descriptor open",
                          {"spec": spec, "offset": k})
-        # model side: the token stream and the sampled cuts
-        if toks is None:
-            ctx.disagree("xml-token-form", {"spec": spec}, "file is not a sequence of <tag ...>, </tag>, <tag/>, text",
-                         None)
+        # model side: the file's token stream (with white space) must be the model's serialisation of a tree, and
+        # the model's verdict on every cut must be the loader's
+        bt = build_tree(toks)
+        if bt is None:
+            ctx.disagree("xml-token-form", {"spec": spec}, "file is not one root element followed by white space", None)
             return
-        btext = text  # offsets are byte offsets; map through the encoded prefix lengths
-        starts = []
-        real = [t for t in toks if t[0] != 4]
-        enc = [len(btext[:t[2]].encode("utf-8")) for t in real] + [len(btext[:real[-1][3]].encode("utf-8"))]
+        tree, ntrail = bt
         cuts = []
+        ti = 0
         for k in offsets:
-            if k >= enc[-1]:
-                continue
-            # number of whole tokens before byte k, and whether k is inside a token
-            nwhole = 0
-            inside = False
-            for i, t in enumerate(real):
-                tb, te = enc[i], len(btext[:t[3]].encode("utf-8"))
-                if te <= k:
-                    nwhole = i + 1
-                elif tb < k < te:
-                    inside = True
-                    break
+            while ti < len(toks) and boff[toks[ti][3]] <= k:
+                ti += 1
+            # toks[ti] is the first token that ends after byte k (or ti == len(toks))
+            if ti == len(toks) or boff[toks[ti][2]] == k:
+                cuts.append((k, ti, 0))
+            else:
+                kind, _tid, cs, _ce = toks[ti]
+                if kind in (0, 1, 2):
+                    rest = 1
                 else:
-                    break
-            cuts.append((k, nwhole, inside))
-        lines.append(json.dumps({"op": "trunc", "tokens": [[t[0], t[1]] for t in real],
-                                 "cuts": [[c[1], 1 if c[2] else 0] for c in cuts]}))
-        pending.append({"spec": spec, "cuts": cuts, "verdict": verdict, "ntok": len(real)})
+                    head = data[boff[cs]:k].decode("utf-8", "ignore")
+                    rest = 3 if not head.strip() else 2
+                cuts.append((k, ti, rest))
+            ctx.count("cut:" + ("boundary", "in-markup", "in-text", "in-blank")[cuts[-1][2]])
+        lines.append(json.dumps({"op": "truncws", "tree": tree, "trail": ntrail,
+                                 "tokens": [[t[0], t[1]] for t in toks],
+                                 "cuts": [[c[1], c[2]] for c in cuts]}))
+        pending.append({"spec": spec, "cuts": cuts, "verdict": verdict, "ntok": len(toks) - ntrail,
+                        "end_root": end_root})
     finally:
         shutil.rmtree(root, ignore_errors=True)
 
@@ -1281,18 +1621,24 @@ def trunc_case(ctx, spec, lines, pending):
 def trunc_compare(ctx, pending, outs):
     for p, o in zip(pending, outs):
         ctx.corr_evals += 1
-        if not o.get("whole") or o.get("ntok") != p["ntok"]:
-            ctx.disagree("xml-token-stream", {"spec": p["spec"]}, "written file", "model: token stream of the whole "
-                         "file is not Complete")
+        if not (o.get("layout") and o.get("element") and o.get("whole") and o.get("ntok") == p["ntok"]):
+            ctx.disagree("xml-layout", {"spec": p["spec"]}, "written file",
+                         "model: the file's token stream is not `tokens tree ++ trail n` of an element tree "
+                         "(layout %s element %s whole %s ntok %s/%s)" % (o.get("layout"), o.get("element"),
+                                                                          o.get("whole"), o.get("ntok"), p["ntok"]))
             continue
-        for (k, nwhole, inside), comp in zip(p["cuts"], o["complete"]):
+        for (k, nwhole, rest), comp in zip(p["cuts"], o["complete"]):
             ctx.corr_evals += 1
-            # trusted+sampled: lxml rejects what the model calls incomplete
-            if (not comp) and p["verdict"][k]:
-                ctx.disagree("lxml-rejects-incomplete", {"spec": p["spec"], "offset": k}, "loaded", "incomplete")
-            if comp:
-                ctx.disagree("strict-prefix-complete", {"spec": p["spec"], "offset": k}, None,
-                             "model calls a strict prefix complete (contradicts c08_truncated_incomplete)")
+            # both directions, at every cut tried: the loader accepts exactly what the model calls complete
+            if comp != p["verdict"][k]:
+                ctx.disagree("loader-verdict", {"spec": p["spec"], "offset": k},
+                             "loaded" if p["verdict"][k] else "rejected",
+                             "complete" if comp else "incomplete")
+            # the theorem's case split: strictly inside the document (a token of the root is lost) <-> rejected
+            if comp != (nwhole >= p["ntok"]) or (nwhole >= p["ntok"]) != (k >= p["end_root"]):
+                ctx.disagree("cut-classification", {"spec": p["spec"], "offset": k},
+                             {"whole_tokens": nwhole, "root_tokens": p["ntok"], "end_root": p["end_root"]},
+                             "model verdict %s contradicts c08_ws_truncated_rejected / _only_trailing_space_lost" % comp)
 
 
 # ============================================================================ corpus, run, replay
@@ -1337,23 +1683,119 @@ CORPUS = [
                                                        {"n": 3, "id": "m1", "cell_id": "c1"}]}},
     {"kind": "ar", "spec": {"shape": "single", "morphs": [{"n": 2, "id": "m0"}]}},
 ]
+NET1 = {"id": "n", "pops": [{"id": "p0", "instances": [[1, 2, 3], [4, 5, 6]], "props": [["t", "v"]]}, {"id": "p1", "size": 2}],
+        "projs": [{"id": "pr", "pre": "p0", "post": "p1", "wd": [[0, 0, 1, 0.5, "1ms"]], "segfrac": True}],
+        "ilists": [{"id": "il", "pop": "p0", "inputs_w": [[0, 1, 1.5]]}]}
+CORPUS += [
+    # second pass ---------------------------------------------------------------------------------------------
+    # caller-owned file object, close=False: every write is a fault point, the library must not close it
+    {"kind": "xwo", "spec": {"id": "o1", "izh": ["i0"], "cells": [{"id": "c0", "nseg": 2}]}},
+    {"kind": "xwo", "spec": {"id": "o2", "cells": [{"id": "c0", "nseg": 1}], "bad": "seg_id_str"}},
+    # embed_xml=False (with and without compression)
+    {"kind": "hwn", "spec": {"id": "e1", "networks": [NET1]}, "opts": {"compress": False}},
+    {"kind": "hwn", "spec": {"id": "e2", "networks": [{"id": "n", "pops": [{"id": "p0", "size": 2}], "synconn": 1}]}},
+    {"kind": "hw", "spec": {"id": "e3", "izh": ["i0"], "networks": [NET1]}, "opts": {"compress": False}},
+    # a document of optimized containers (PopulationContainer/ProjectionContainer/InputListContainer.exportHdf5)
+    {"kind": "hwo", "spec": {"id": "k1", "izh": ["i0"], "networks": [NET1]}},
+    {"kind": "hwo", "spec": {"id": "k2", "networks": [NET1], "bad_opt": "none_id_pop"}},
+    {"kind": "hwo", "spec": {"id": "k3", "networks": [NET1], "bad_opt": "nonsense_member"}},
+    # XML loader: truncated file, a root element that is not <neuroml>, an empty file
+    {"kind": "xr", "spec": {"id": "x1", "izh": ["i0"]}, "form": "xml", "damage": "truncated", "at": 0.9},
+    {"kind": "xr", "spec": {"id": "x2"}, "form": "xml", "damage": "other_root"},
+    {"kind": "xr", "spec": {"id": "x3", "cells": [{"id": "c0", "nseg": 2}]}, "form": "xml"},
+    # module-level readers on XML, on HDF5 (intact, damaged), on a missing file (SystemExit), on strings
+    {"kind": "rf", "spec": {"id": "f1", "izh": ["i0"]}, "form": "xml"},
+    {"kind": "rf", "spec": {"id": "f2", "izh": ["i0"]}, "form": "xml", "damage": "missing"},
+    {"kind": "rf", "spec": {"id": "f3", "izh": ["i0"], "networks": [NET1]}, "form": "h5"},
+    {"kind": "rf", "spec": {"id": "f4", "networks": [NET1]}, "form": "h5", "damage": "no_root"},
+    {"kind": "rf", "spec": {"id": "f5", "izh": ["i0"], "networks": [NET1]}, "form": "h5", "damage": "bad_xml"},
+    {"kind": "rs", "spec": {"id": "s1", "izh": ["i0"]}, "form": "xml"},
+    {"kind": "rs", "spec": {"id": "s2", "izh": ["i0"]}, "form": "xml", "damage": "truncated", "at": 0.5},
+    # include resolution: an XML and an HDF5 include; the HDF5 include damaged; the XML include cut / missing
+    {"kind": "rfi", "spec": {"id": "i1", "izh": ["i0"], "networks": [NET1]}},
+    {"kind": "rfi", "spec": {"id": "i2", "networks": [NET1]}, "damage": "no_root"},
+    {"kind": "rfi", "spec": {"id": "i3", "networks": [NET1]}, "damage": "inc_truncated"},
+    {"kind": "rfi", "spec": {"id": "i4", "networks": [NET1]}, "damage": "inc_missing"},
+    # a group nested deeper than the expansion of parse_group (un-expanded code below the third level)
+    {"kind": "hr", "spec": {"id": "r5", "networks": [NET1]}, "damage": "deep_group"},
+    # files as older writers left them: no embedded XML, no column attributes, attribute values as bytes
+    {"kind": "hr", "spec": {"id": "r6", "izh": ["i0"], "networks": [NET1]}, "damage": "noembed"},
+    {"kind": "hr", "spec": {"id": "r7", "networks": [NET1]}, "damage": "no_columns"},
+    {"kind": "hr", "spec": {"id": "r8", "networks": [NET1]}, "damage": "bytes_attrs"},
+]
 TRUNC_CORPUS = [
     {"id": "t0"},
     {"id": "t1", "notes": "a < b & c > d", "izh": ["i0"], "cells": [{"id": "c0", "nseg": 2, "notes": "]]> <![CDATA["}]},
 ]
 
 
+def reader_spec(rng):
+    """a document that NeuroMLHdf5Writer can write (so that there is a file to read)"""
+    spec = gen_h5_spec(rng)
+    spec.pop("bad", None)
+    del spec["networks"][1:]
+    for net in spec["networks"]:
+        net.pop("synconn", None)
+        net.pop("expinputs", None)
+        net["ilists"] = [e for e in net.get("ilists", []) if e["inputs"] or e["inputs_w"]]
+        net["eprojs"] = [e for e in net.get("eprojs", []) if len(e) > 3]
+        net["cprojs"] = [e for e in net.get("cprojs", []) if len(e) > 3]
+    return spec
+
+
+def gen_cases2(ctx):
+    """second pass: specialisations (keyword arguments, caller-owned file object, optimized containers) and the
+    module-level readers"""
+    rng = ctx.rng
+    m = ctx.search_mult
+    cases = []
+    for _ in range(ctx.n(3, 25) * m):
+        cases.append({"kind": "xwo", "spec": gen_xml_spec(rng)})
+    for _ in range(ctx.n(4, 30) * m):
+        c = {"kind": "hwn", "spec": gen_h5_spec(rng), "opts": {"compress": rng.random() < 0.5}}
+        if c["spec"].get("bad") in ("seg_id_str", "nonsense_member"):
+            c["spec"].pop("bad")          # only the embedded-XML step would see them
+        cases.append(c)
+    for _ in range(ctx.n(3, 25) * m):
+        spec = reader_spec(rng)
+        for net in spec["networks"]:      # the optimized loader refuses electrical / continuous projections
+            net["eprojs"], net["cprojs"] = [], []
+        r = rng.random()
+        if r < 0.15:
+            spec["bad_opt"] = "none_id_pop"
+        elif r < 0.3:
+            spec["bad_opt"] = "nonsense_member"
+        cases.append({"kind": "hwo", "spec": spec})
+    for _ in range(ctx.n(4, 24) * m):
+        spec = gen_xml_spec(rng)
+        spec.pop("bad", None)
+        dmg = rng.choice([None, None, "truncated", "truncated", "empty", "other_root", "missing"])
+        kind = rng.choice(["xr", "rf", "rs"])
+        if kind == "rs" and dmg == "missing":
+            dmg = "truncated"
+        cases.append({"kind": kind, "spec": spec, "form": "xml", "damage": dmg, "at": rng.choice([0.1, 0.5, 0.9, 0.99])})
+    for _ in range(ctx.n(3, 16) * m):
+        cases.append({"kind": "rf", "form": "h5", "spec": reader_spec(rng), "damage": rng.choice(DAMAGE)})
+    for _ in range(ctx.n(2, 10) * m):
+        cases.append({"kind": "rfi", "spec": reader_spec(rng),
+                      "damage": rng.choice([None, None, "no_root", "bad_xml", "not_hdf5", "inc_missing", "inc_truncated"])})
+    return cases
+
+
 def gen_cases(ctx):
     rng = ctx.rng
     m = ctx.search_mult
     cases = []
-    for _ in range(ctx.n(10, 60) * m):
+    for _ in range(ctx.n(7, 45) * m):
         cases.append({"kind": "xw", "spec": gen_xml_spec(rng)})
-    for _ in range(ctx.n(14, 90) * m):
-        cases.append({"kind": "hw", "spec": gen_h5_spec(rng)})
-    for _ in range(ctx.n(8, 50) * m):
+    for _ in range(ctx.n(9, 70) * m):
+        c = {"kind": "hw", "spec": gen_h5_spec(rng)}
+        if rng.random() < 0.25:
+            c["opts"] = {"compress": False}
+        cases.append(c)
+    for _ in range(ctx.n(5, 35) * m):
         cases.append({"kind": "aw", "spec": gen_am_spec(rng)})
-    for _ in range(ctx.n(8, 50) * m):
+    for _ in range(ctx.n(6, 36) * m):
         spec = gen_h5_spec(rng)
         spec.pop("bad", None)
         del spec["networks"][1:]
@@ -1364,7 +1806,7 @@ def gen_cases(ctx):
             net["eprojs"] = [e for e in net.get("eprojs", []) if len(e) > 3]
             net["cprojs"] = [e for e in net.get("cprojs", []) if len(e) > 3]
         cases.append({"kind": rng.choice(["hr", "hr", "hro"]), "spec": spec, "damage": rng.choice(DAMAGE)})
-    for _ in range(ctx.n(4, 25) * m):
+    for _ in range(ctx.n(3, 25) * m):
         spec = gen_am_spec(rng)
         spec.pop("standalone", None)
         for i, mm in enumerate(spec["morphs"]):
@@ -1374,10 +1816,43 @@ def gen_cases(ctx):
     return cases
 
 
+def directed(ctx, cases):
+    """When an obligation is broken fw asks for a 10x wider search (ctx.search_mult).  The search is directed instead:
+    the driver names the entry points whose skeleton has an unprotected place that is not a known finding; cases of
+    those entry points are kept at 4x the normal number, the others (and everything when the driver names none) at
+    the normal number.  Keeps a run against a broken tree within the time budget."""
+    if ctx.search_mult <= 1:
+        return cases
+    suspects = set()
+    rc, out = fw.run_driver("C08", [json.dumps({"op": "unprotected"})])
+    known_rows = set()
+    try:
+        src = open(fw.module_path("NmlVerif.Props.C08Gen")).read()
+        m = re.search(r"def known : List \(Nat × UKind\) := \[(.*?)\n\]", src, re.S)
+        known_rows = {(int(a), b) for a, b in re.findall(r"\((\d+),\s*\.(\w+)\)", m.group(1))} if m else set()
+        for e in json.loads(out[0])["entries"]:
+            if any((e["id"], i[0]) not in known_rows for i in e["issues"]):
+                suspects.add(e["id"])
+    except Exception:
+        pass
+    ctx.extra["directed_search_entries"] = sorted(ENTRY_NAMES[e] for e in suspects)
+    base = ctx.search_mult
+    seen, out_cases = {}, []
+    for c in cases:
+        k = c["kind"]
+        seen[k] = seen.get(k, 0) + 1
+        quota = ctx.n(10, 80) * (4 if KIND_ENTRY[k] in suspects else 1)
+        if k in ("hr", "hro", "rf", "rfi"):
+            quota = ctx.n(5, 30) * (3 if KIND_ENTRY[k] in suspects else 1)
+        if seen[k] <= quota:
+            out_cases.append(c)
+    return out_cases
+
+
 def run(ctx):
     load_skeletons()
-    cap = ctx.n(40, 150)
-    cases = [json.loads(json.dumps(c)) for c in CORPUS] + gen_cases(ctx)
+    cap = ctx.n(30, 150)
+    cases = [json.loads(json.dumps(c)) for c in CORPUS] + directed(ctx, gen_cases(ctx) + gen_cases2(ctx))
     run_records(ctx, cases, cap)
     # directed search when the per-run obligation is broken: the driver says which entry points have an unprotected
     # place; the corpus + generated cases above already fault every call of those entry points
@@ -1391,7 +1866,7 @@ def run(ctx):
             pass
     # truncation
     specs = [json.loads(json.dumps(s)) for s in TRUNC_CORPUS]
-    for _ in range(ctx.n(3, 12) * ctx.search_mult):
+    for _ in range(ctx.n(3, 12) * min(ctx.search_mult, 3)):
         s = gen_xml_spec(ctx.rng)
         s.pop("bad", None)
         specs.append(s)
@@ -1400,7 +1875,7 @@ def run(ctx):
                       "networks": [gen_network(ctx.rng, 0)]})
     lines, pending = [], []
     for s in specs:
-        trunc_case(ctx, s, lines, pending)
+        trunc_case(ctx, s, lines, pending, every=(ctx.tier == "thorough"))
     if lines:
         rc, out = fw.run_driver("C08", lines)
         if rc != 0 or len(out) != len(lines):
@@ -1420,7 +1895,11 @@ def replay(ctx, payload):
     case = payload.get("case", {})
     if "spec" in case and "offset" in case:
         lines, pending = [], []
-        trunc_case(ctx, case["spec"], lines, pending)
+        trunc_case(ctx, case["spec"], lines, pending, every=True)
+        if lines:
+            rc, out = fw.run_driver("C08", lines)
+            if rc == 0 and len(out) == len(lines):
+                trunc_compare(ctx, pending, [json.loads(x) for x in out])
     else:
         c = case.get("case", case)
         if isinstance(c, dict) and "case" in c:
